@@ -336,9 +336,11 @@ Section Table.
   Qed.
 End Table.
 
-Definition later : atom -> list atom := g_later atoms.
-Definition all_pats : list (list atom) := g_all_pats atoms.
-Definition all_distinct_check : bool := g_check atoms.
+Notation later := (g_later atoms).
+Notation all_pats := (g_all_pats atoms).
+(* a notation, not a constant: the kernel must never be asked to compare
+   [g_check atoms] with a name for it by unfolding the wrong side *)
+Notation all_distinct_check := (g_check atoms).
 
 (** The enumeration.  Checked once, at [Qed]. *)
 Lemma weight2_syndromes_nodup : all_distinct_check = true.
@@ -347,7 +349,7 @@ Proof. vm_cast_no_check (eq_refl true). Qed.
 Lemma bd_all_pats_nodup : NoDup (map xsyn all_pats).
 Proof.
   pose proof weight2_syndromes_nodup as H.
-  unfold all_distinct_check in H. rewrite bd_check_eq in H.
+  rewrite bd_check_eq in H.
   apply bd_nodup_check_sound in H. exact H.
 Qed.
 
@@ -384,7 +386,7 @@ Qed.
 
 Lemma bd_in_later : forall a b, good_atom b -> (fst b < fst a)%nat -> In b (later a).
 Proof.
-  intros a b Hb Hlt. unfold later, g_later. apply filter_In. split.
+  intros a b Hb Hlt. unfold g_later. apply filter_In. split.
   - apply bd_in_atoms. exact Hb.
   - apply Nat.ltb_lt. exact Hlt.
 Qed.
@@ -399,7 +401,7 @@ Fixpoint pat_ok (bound : nat) (p : list atom) : Prop :=
 Lemma bd_in_all_pats : forall bound p,
   pat_ok bound p -> (length p <= 2)%nat -> In p all_pats.
 Proof.
-  intros bound p Hok Hlen. unfold all_pats, g_all_pats. fold later.
+  intros bound p Hok Hlen. unfold g_all_pats.
   destruct p as [|a [|b [|c r]]].
   - left. reflexivity.
   - right. apply in_flat_map. exists a. destruct Hok as (Ha & _ & _). split.
@@ -408,7 +410,7 @@ Proof.
   - right. apply in_flat_map. exists a.
     destruct Hok as (Ha & _ & Hb & Hlt & _). split.
     + apply bd_in_atoms. exact Ha.
-    + right. apply in_map. apply bd_in_later; assumption.
+    + right. apply (in_map (fun b0 : atom => [a; b0])). apply bd_in_later; assumption.
   - cbn [length] in Hlen. lia.
 Qed.
 
